@@ -169,3 +169,38 @@ Example ex_run_vote_counts :
                  mkVote Block (1 * 1) 1] /\
     r_decision r = Block.
 Proof. eexists. split; [vm_compute; reflexivity |]. vm_compute. auto. Qed.
+
+(* ---------------------------------------------------------------------- *)
+(* histories                                                                *)
+Definition permit_all : nat -> behaviour := fun _ => Acted APermit None.
+Definition first_permits : nat -> behaviour :=
+  fun i => match i with O => Acted APermit None | _ => Acted ABlock None end.
+
+(* EmergencyQuorum of 3 votes, grows to 7, votes again with 1 permit and 6
+   blocks: 30% of 7 needs 3 permits -> BLOCK (a quota remembered from the
+   3-voter colony would say PERMIT) *)
+Example ex_history_emergency_grows :
+  let st := init_state (emergency_cfg (3 # 10)) true [(1, 1); (1, 1); (1, 1)] in
+  map is_permit (run_history false st
+    [OVote first_permits; OAdd 10 1; OAdd 11 1; OAdd 12 1; OAdd 13 1; OVote first_permits])
+  = [true; false].
+Proof. vm_compute. reflexivity. Qed.
+
+(* default THRESHOLD of 7 shrinks to 3: a unanimous ballot of the 3 is PERMIT *)
+Example ex_history_threshold_shrinks :
+  let st := init_state (mkConfig ThresholdCount None 1) true
+              [(1, 1); (1, 1); (1, 1); (1, 1); (1, 1); (1, 1); (1, 1)] in
+  map is_permit (run_history false st
+    [OVote permit_all; ORemove 0; ORemove 1; ORemove 2; ORemove 3; OVote permit_all])
+  = [true; true].
+Proof. vm_compute. reflexivity. Qed.
+
+(* vote-to-vote state that DOES influence later verdicts: reliability learning.
+   Two voters, WEIGHTED; voter 0 permits, voter 1 blocks with twice the weight
+   -> BLOCK; update_all_reliability(PERMIT) sets voter 1's reliability to 0/1,
+   the same ballot is then PERMIT. *)
+Example ex_history_reliability_learning :
+  let st := init_state (mkConfig Weighted None 1) true [(1, 1); (2, 1)] in
+  map is_permit (run_history false st
+    [OVote first_permits; OUpdateAll Permit; OVote first_permits]) = [false; true].
+Proof. vm_compute. reflexivity. Qed.
